@@ -68,7 +68,7 @@ def _remix(rng, ops):
     ones roll the arena over many times), sometimes the producer's shared arena ("shared": anchored slices of an
     arena that outlives the call and is dropped at a random later moment)."""
     policy = rng.random()
-    one = rng.choice(METHODS + ["shared", "shared", "ahead", "ahead", "flaky"]) if policy < 0.4 else None
+    one = rng.choice(METHODS + ["shared", "shared", "ahead", "ahead", "flaky", "split"]) if policy < 0.4 else None
     out = []
     for op in ops:
         if op["ev"] == "feed":
@@ -76,7 +76,7 @@ def _remix(rng, ops):
             if one is not None:
                 op["m"] = one
             elif rng.random() < 0.25:
-                op["m"] = rng.choice(["shared", "ahead", "flaky"])
+                op["m"] = rng.choice(["shared", "ahead", "flaky", "split"])
             if op["m"] == "flaky":
                 # read sizes of the producer's reader (0 = EINTR), cyclic
                 op["sched"] = rng.choice([[1, 0, 2, 0, 0, 3], [0, 1], [0, 0, 7], [100, 0, 1, 0], [3, 0]])
@@ -397,9 +397,15 @@ def run_prod(res, work, tier, seed):
                             ops.append({"ev": "drop_shared"})
                 ops += [{"ev": "feed", "m": "copy", "n": -1}, {"ev": "finish"}]
                 scripted.append((inp, ops))
-    # (c) an anchored piece that leaves no slice behind (a lone FE is held back by the encoder; header bytes alone give the
-    #     decoder nothing to emit) right after a large borrowed anchored piece whose chunk nothing else keeps alive
     dec_scripts = {}
+    # (c) an arena read split in two (anchored half + copied half); an anchored piece that leaves no slice behind (a lone FE
+    #     is held back by the encoder; header bytes alone give the decoder nothing to emit) right after a large borrowed
+    #     anchored piece whose chunk nothing else keeps alive
+    for n in (3000, 200, 6000):
+        inp = _filler(n, rng)
+        scripted.append((inp, [{"ev": "feed", "m": "split", "n": -1}, {"ev": "drain", "mode": "read", "n": 10 ** 6}, {"ev": "finish"}]))
+        dec_scripts[len(scripted) - 1] = [{"ev": "feed", "m": "split", "n": -1}, {"ev": "drain", "mode": "slices", "n": 10 ** 6},
+                                          {"ev": "feed", "m": "copy", "n": -1}, {"ev": "finish"}]
     for m in ("foreign", "anchored", "shared", "ahead"):
         inp = _filler(300, rng) + [FE] + _filler(300, rng)
         ops = [{"ev": "feed", "m": m, "n": 300}, {"ev": "feed", "m": m, "n": 1}, {"ev": "drain", "mode": "read", "n": 10 ** 6},
